@@ -62,16 +62,17 @@ ValueOK(line, i) ==
 (* and which of the table's entries for a declared type becomes its component depends on map    *)
 (* iteration order in the code: any candidate is accepted.                                      *)
 Fidelity(line) ==
-   LET ua == line.opt = "useall"
-       m == GenAll(line.T, ua) IN
-   \/ line.opt \notin {"default", "useall"} \/ Diverges(line.T)
+   LET m == GenAll(line.T, line.opt)
+       keys == CompKeys(line.opt, m.st) IN
+   \/ Diverges(line.T)
    \/ (/\ line.S = m.s
-       /\ \A n \in {x \in CutNames(m.c) : CompCandidates(m.c, x) # {}} :
-             HasComp(line.comps, n) /\ Comp(line.comps, n) \in CompCandidates(m.c, n))
+       /\ {line.comps.k[i] : i \in DOMAIN line.comps.k} = keys
+       /\ \A k \in keys : Comp(line.comps, k) \in {c.val : c \in CompCands(line.opt, m.st, k)})
    \/ CSVWrite("%1$s", <<ToJson([case |-> line.case, T |-> line.T, opt |-> line.opt, S |-> line.S, comps |-> line.comps,
-                                  modelS |-> m.s, modelComps |-> GenComps(line.T, ua)])>>, "fidelity.ndjson")
+                                  modelS |-> m.s, modelCands |-> SetToSeq({c \in m.st.cand : \E k \in keys : Matches(line.opt, c, k)})])>>,
+                "fidelity.ndjson")
 
-LineOK(line) ==
+Verdict(line) ==
    IF line.gen \in {"hang", "crash", "not_run_after_repeated_hangs"} THEN Viol(LineRec(line, "generator_died"))
    ELSE IF ~Realised(line) THEN Viol(LineRec(line, "case_not_realised"))
    ELSE IF line.gen # "ok" THEN Viol(LineRec(line, "generation_failed"))
@@ -82,8 +83,11 @@ LineOK(line) ==
    ELSE IF line.load # "ok" THEN Viol(LineRec(line, "schema_does_not_load"))
    ELSE IF ~InFragment(line.S, line.comps) THEN Viol(LineRec(line, "schema_outside_judged_fragment"))
    ELSE IF Len(line.vals) # Len(line.gvs) THEN Viol(LineRec(line, "values_missing"))
-   ELSE /\ \A i \in DOMAIN line.vals : ValueOK(line, i)
-        /\ Fidelity(line)
+   ELSE \A i \in DOMAIN line.vals : ValueOK(line, i)
+
+LineOK(line) ==
+   /\ Verdict(line)
+   /\ (line.gen = "ok" /\ Realised(line) /\ CompsWellFormed(line.comps)) => Fidelity(line)
 
 Judge == l > 0 => LineOK(Trace[l])
 
